@@ -236,32 +236,41 @@ class Response:
                     util.reraise(exc_info[0], exc_info[1], exc_info[2])
             finally:
                 exc_info = None
+        elif self.status is not None:
+            raise AssertionError("Response headers already set!")
+
+        # a call that is refused below leaves the response as it was
+        saved = (self.status, getattr(self, "status_code", None),
+                 self.headers, self.response_length, self.upgrade)
+        try:
             # headers not sent yet: the new ones replace those of the
             # earlier call (PEP 3333), they are not added to them
             self.headers = []
             self.response_length = None
             self.upgrade = False
-        elif self.status is not None:
-            raise AssertionError("Response headers already set!")
 
-        # the status goes on the wire verbatim: same characters as a field
-        # value (RFC 9112 section 4: reason-phrase), never CR, LF or NUL
-        if not isinstance(status, str):
-            raise TypeError('%r is not a string' % status)
-        if not HEADER_VALUE_RE.fullmatch(status):
-            raise InvalidHeader('%r' % status)
+            # the status goes on the wire verbatim: same characters as a field
+            # value (RFC 9112 section 4: reason-phrase), never CR, LF or NUL
+            if not isinstance(status, str):
+                raise TypeError('%r is not a string' % status)
+            if not HEADER_VALUE_RE.fullmatch(status):
+                raise InvalidHeader('%r' % status)
 
-        self.status = status
+            self.status = status
 
-        # get the status code from the response here so we can use it to check
-        # the need for the connection header later without parsing the string
-        # each time.
-        try:
-            self.status_code = int(self.status.split()[0])
-        except ValueError:
-            self.status_code = None
+            # get the status code from the response here so we can use it to
+            # check the need for the connection header later without parsing
+            # the string each time.
+            try:
+                self.status_code = int(self.status.split()[0])
+            except ValueError:
+                self.status_code = None
 
-        self.process_headers(headers)
+            self.process_headers(headers)
+        except Exception:
+            (self.status, self.status_code, self.headers,
+             self.response_length, self.upgrade) = saved
+            raise
         self.chunked = self.is_chunked()
         return self.write
 
